@@ -110,9 +110,9 @@ for _f, _i in FORMS.items():
     FORMS_BY_TYPE.setdefault(_i[0], []).append(_f)
 
 WORDS = ["foo", "bar", "baz", "qux", "zip", "nim"]          # identifiers
-CONNECT = ["mit", "und", "plus", "zu", ","]                  # keywords / punctuation usable inside patterns
-KEYWORDS = {"mit", "und", "plus", "zu", "mal", "an", "der", "Stelle", "verkettet", "als", "nicht", "nie", "minus"}
-NEG_WORDS = ["nicht", "nie"]
+CONNECT = ["mit", "und", "plus", "mal", ","]                  # keywords / punctuation usable inside patterns
+KEYWORDS = {"mit", "und", "plus", "mal", "an", "der", "Stelle", "verkettet", "als", "nicht", "kein", "minus"}
+NEG_WORDS = ["nicht", "kein"]
 
 TOK_RE = re.compile(r'"[^"]*"|\'[^\']*\'|\d+,\d+|\d+|[A-Za-z_ÄÖÜäöüß][A-Za-z_0-9ÄÖÜäöüß]*|[()\-,.]')
 
@@ -176,6 +176,7 @@ class Func:
         self.name, self.params, self.raw_aliases = name, params, aliases   # params: [(name, type, ref, written)]
         self.generic, self.ret, self.public, self.module, self.struct = generic, ret, public, module, struct
         self.tag = 0
+        self.numeric_body = None     # name of a parameter of type T that the body adds 1 to: instantiable only for Zahl / Kommazahl
 
     def ptype(self, n):
         for p in self.params:
@@ -243,7 +244,33 @@ def render_skel(items, names):
     return s.replace(" ,", ",")
 
 
+def gen_wide_population(rng):
+    """one skeleton with two placeholders declared for (almost) every combination of {Zahl, Text} x {value, Referenz}
+    and a few generic variants: more than 12 candidates at one call site (sort.Slice leaves its insertion-sort regime)
+    and genuine ties between type-matching candidates"""
+    w1, w2 = rng.choice(WORDS), rng.choice(WORDS + ["mit", "und"])
+    combos = [(ta, ra, tb, rb) for ta in (Z, T) for ra in (False, True) for tb in (Z, T) for rb in (False, True)]
+    rng.shuffle(combos)
+    funcs = []
+    for n, (ta, ra, tb, rb) in enumerate(combos[:rng.randint(13, 16)]):
+        params = [('a', ta, ra, None), ('b', tb, rb, None)]
+        if rng.random() < 0.5:
+            params.reverse()
+        funcs.append(Func("w%d" % (n + 1), params, ["%s <a> %s <b>" % (w1, w2)]))
+    gen = [[('a', G('T'), False, None), ('b', G('T'), False, None)], [('a', G('T'), True, None), ('b', G('T'), False, None)],
+           [('a', G('T'), False, None), ('b', G('R'), True, None)], [('a', G('T'), True, None), ('b', Z, False, None)]]
+    for n, ps in enumerate(rng.sample(gen, rng.randint(1, 3))):
+        funcs.append(Func("g%d" % (n + 1), ps, ["%s <a> %s <b>" % (w1, w2)], generic=True))
+    # a longer and a shorter relative
+    funcs.append(Func("wl", [('a', Z, False, None), ('b', Z, False, None)], ["%s <a> %s <b> %s" % (w1, w2, rng.choice(WORDS))]))
+    funcs.append(Func("ws", [('a', Z, False, None)], ["%s <a>" % w1]))
+    rng.shuffle(funcs)
+    return funcs, False
+
+
 def gen_population(rng, want_struct, clean):
+    if not want_struct and rng.random() < 0.1:
+        return gen_wide_population(rng)
     funcs = []
     n_fun = rng.randint(5, 11)
     skels = []          # shared skeleton pool: (items, nslots)
@@ -293,6 +320,10 @@ def gen_population(rng, want_struct, clean):
             params.append((pn, t, ref, written))
         if generic and not any(is_generic_type(p[1]) for p in params):
             generic = False
+        if not generic and len(params) >= 2 and rng.random() < (0.35 if clean else 0.1):
+            # same-typed value parameters: binding by position instead of by name would go unnoticed by the types
+            t0 = rng.choice([Z, T])
+            params = [(q[0], t0, False, None) for q in params]
         # declaration order of the parameters is independent of the placeholder order
         decl_params = list(params)
         rng.shuffle(decl_params)
@@ -321,6 +352,9 @@ def gen_population(rng, want_struct, clean):
                 it2[-1] = rng.choice(WORDS)
             aliases.append(render_skel(it2, o2))
         f = Func("f%d" % fid, decl_params, aliases, generic=generic, ret='Wahrheitswert' if negatable else 'Zahl')
+        direct = [q for q in decl_params if q[1][0] == 'G' and not q[2]]
+        if generic and direct and rng.random() < 0.35:
+            f.numeric_body = direct[0][0]
         funcs.append(f)
     if want_struct:
         st = Func("Punkt", [('x', Z, False, None), ('y', Z, False, None)], [], ret='Punkt', struct=True)
@@ -391,7 +425,7 @@ def art(ret):
     return {'Zahl': "eine Zahl", 'Wahrheitswert': "einen Wahrheitswert", 'Punkt': "einen Punkt"}[ret]
 
 
-PRINTERS = {Z: 'XAUSZ', T: 'XAUST', K: 'XAUSK', W: 'XAUSW', B: 'XAUSB'}
+PRINTERS = {Z: 'XAUSZ', T: 'XAUST', W: 'XAUSW', B: 'XAUSB'}   # Kommazahl output depends on the locale's decimal point: not printed
 AUS_MODULE = """Die öffentliche Funktion Schreibe_Text mit dem Parameter p1 vom Typ Text, gibt nichts zurück,
 ist in "libddpstdlib.a" definiert
 und kann so benutzt werden:
@@ -444,6 +478,8 @@ def render_func(f, backend):
         head += " mit den Parametern %s vom Typ %s," % (names, tys)
     head += " gibt %s zurück, macht:" % art(f.ret)
     body = []
+    if f.numeric_body:
+        body.append("\t(%s plus 1)." % f.numeric_body)
     if backend:
         body.append('\tXAUST "%s(".' % f.name)
         for i, p in enumerate(sorted(ps)):
@@ -560,6 +596,8 @@ class Spec:
             if c == 'IDENT':
                 if s in VARS and (s != 'vp' or self.has_struct):
                     return (VARS[s][0], VARS[s][0], False)
+                if getattr(self, 'void_unknown', False):
+                    return (VOID, VOID, False)  # how the implementation sees an undeclared name (it is diagnosed later)
                 return (None, None, False)     # not a variable: no type
         if toks[i][0] == 'NEG' and j - i == 2:
             inner = self.unit_info(toks, i + 1, j)
@@ -635,7 +673,19 @@ class Spec:
             else:
                 if val is None or not self.unify(p[1], val, env):
                     return False
+        if a.fn.numeric_body:
+            g = a.fn.ptype(a.fn.numeric_body)[1][1]
+            if env.get(g) not in (Z, K):
+                return False           # the generic function cannot be instantiated for this type
         return True
+
+    def signature_typed(self, a, toks, spans):
+        """typed() without the instantiability of the body"""
+        nb, a.fn.numeric_body = a.fn.numeric_body, None
+        try:
+            return self.typed(a, toks, spans)
+        finally:
+            a.fn.numeric_body = nb
 
     @staticmethod
     def dominates(b, a):
@@ -676,6 +726,9 @@ def gen_calls(rng, aliases, n, clean, has_struct):
     if not targets:
         return calls
     for _ in range(n):
+        if rng.random() < 0.03:
+            calls.append(rng.choice(["vz plus 1", "5", '"s"', "(vz mal 2)", "vt"]))
+            continue
         a = rng.choice(targets)
         env = {}
         parts = []
@@ -691,6 +744,8 @@ def gen_calls(rng, aliases, n, clean, has_struct):
                 if g not in env:
                     under_list = any(q[1] == L(G(g)) for q in a.fn.params)
                     env[g] = rng.choice([Z, T, B] if under_list else [Z, T, K, B, W, L(Z), L(T)])
+                    if a.fn.numeric_body and a.fn.ptype(a.fn.numeric_body)[1] == G(g) and (clean or rng.random() < 0.5):
+                        env[g] = Z if under_list else rng.choice([Z, K])
                 want = env[g] if want[0] == 'G' else L(env[g])
                 if want[0] == 'L' and want[1][0] == 'L':
                     want = want[1]
@@ -747,6 +802,64 @@ def regen_tokens(b, ck):
     return tt
 
 
+def regen_alias_args(ck, tt):
+    """translator: the token lists that delimit an argument unit in parser.alias (key generator) and in checkAlias are
+    re-extracted from /repo/src/parser/alias.go into coq/Gen/AliasArgs.v on every run"""
+    try:
+        src = open(os.path.join(vlib.REPO, "src", "parser", "alias.go")).read()
+        ttsrc = open(os.path.join(vlib.REPO, "src", "token", "token_types.go")).read()
+    except OSError as e:
+        ck.broken_obligation("translator: cannot read alias.go / token_types.go: %r" % (e,), "")
+        return False
+    block = ttsrc[ttsrc.index("const ("):]
+    block = block[:block.index("\n)")]
+    ords = {}
+    n = 0
+    for l in block.splitlines()[1:]:
+        l = l.split("//")[0].strip()
+        if not l:
+            continue
+        ords[l.split()[0]] = n
+        n += 1
+    for k, v in (tt or {}).items():
+        if ords.get(k) != v:
+            ck.broken_obligation("translator: token ordinal of %s read from token_types.go (%s) differs from gentables (%s)" % (k, ords.get(k), v), "")
+            return False
+    body = src[src.index("func (p *parser) alias()"):src.index("func sortAliases")]
+    chk = src[src.index("func (p *parser) checkAlias("):src.index("func (p *parser) InstantiateGenericFunction")]
+    pats = dict(
+        single_match=(body, r"case ([^:]+):\s*p\.advance\(\)\s*return tok, true\s*case token\.NEGATE"),
+        neg_match=(body, r"case token\.NEGATE:\s*p\.advance\(\)\s*if !p\.matchAny\(([^)]*)\) \{\s*return nil, false"),
+        single_check=(chk, r"case ([^:]+):\s*p\.advance\(\) // single-token argument\s*case token\.NEGATE"),
+        neg_check=(chk, r"case token\.NEGATE:\s*p\.advance\(\)\s*p\.matchAny\(([^)]*)\)\s*case token\.LPAREN"),
+        ref_start=(chk, r"typeSensitive && paramType\.IsReference((?: && pType != token\.[A-Z_]+)+) \{"),
+    )
+    lists = {}
+    for name, (text, rx) in pats.items():
+        m = re.search(rx, text)
+        if not m:
+            ck.broken_obligation("translator: the argument-unit token list '%s' is no longer found in alias.go where the model expects it; Select.v may not cover the code any more" % name, "")
+            return False
+        names = re.findall(r"token\.([A-Z_]+)", m.group(1))
+        if any(x not in ords for x in names) or not names:
+            ck.broken_obligation("translator: unknown token names %s in alias.go" % names, "")
+            return False
+        lists[name] = names
+    out = ["(* GENERATED by checks/c09.py (regen_alias_args) from /repo/src/parser/alias.go on every run. Do not edit.",
+           "   The token types at which parser.alias (key generator: the lists named match) and checkAlias (the lists named check) let an argument unit start. *)",
+           "From Coq Require Import List NArith.", "Import ListNotations.", "Open Scope N_scope."]
+    for name in ("single_match", "neg_match", "single_check", "neg_check", "ref_start"):
+        out.append("Definition arg_%s : list N := [%s]. (* %s *)" % (name, "; ".join(str(ords[x]) for x in lists[name]), ", ".join(lists[name])))
+    text = "\n".join(out) + "\n"
+    path = os.path.join(vlib.COQ, "Gen", "AliasArgs.v")
+    old = open(path).read() if os.path.exists(path) else ""
+    if text != old:
+        log("[gen] Gen/AliasArgs.v changed -> rebuilding dependants")
+        open(path, "w").write(text)
+    ck.cov["regenerated"] = dict(file="coq/Gen/AliasArgs.v", lists=lists)
+    return True
+
+
 class Prog:
     pass
 
@@ -762,7 +875,47 @@ def make_program(rng, idx, clean, backend, ncalls):
     p.funcs = funcs
     p.has_struct = any(f.struct for f in funcs)
     p.calls = gen_calls(rng, p.aliases, ncalls, clean, p.has_struct)
+    if backend:
+        sp = Spec(visible(p.aliases), p.has_struct)
+        wrapped = []
+        for c in p.calls:
+            st = spec_tokens(c + ".")
+            r = sp.resolve(st, 0)
+            if r and r['kind'] == 'call' and r['alias'].fn.ret == 'Wahrheitswert' and r['end'] == len(st) - 1:
+                c = "XAUSW (" + c + ")"
+            wrapped.append(c)
+        p.calls = wrapped
     p.files, p.call_lines = render_program(funcs, p.use_mod, p.calls, backend)
+    p.spec = Spec(visible(p.aliases), p.has_struct)
+    return p
+
+
+def ty_json(t):
+    return list(t) if t[0] != 'L' else ['L', ty_json(t[1])]
+
+
+def ty_unjson(t):
+    return ('L', ty_unjson(t[1])) if t[0] == 'L' else (t[0], t[1])
+
+
+def prog_to_json(p):
+    return dict(backend=getattr(p, 'backend', False), use_mod=p.use_mod, calls=p.calls,
+                funcs=[dict(name=f.name, params=[[q[0], ty_json(q[1]), q[2], q[3]] for q in f.params], aliases=list(getattr(f, 'raw_kept', f.raw_aliases)),
+                            generic=f.generic, ret=f.ret, public=f.public, module=f.module, struct=f.struct, numeric_body=f.numeric_body) for f in p.funcs])
+
+
+def prog_from_json(j, idx):
+    p = Prog()
+    p.idx, p.clean, p.backend = idx, False, j.get("backend", False)
+    p.use_mod = j["use_mod"]
+    p.funcs = [Func(f["name"], [(q[0], ty_unjson(q[1]), q[2], q[3]) for q in f["params"]], f["aliases"], generic=f["generic"], ret=f["ret"],
+                    public=f["public"], module=f["module"], struct=f["struct"]) for f in j["funcs"]]
+    for f, jf in zip(p.funcs, j["funcs"]):
+        f.numeric_body = jf.get("numeric_body")
+    p.aliases = build_aliases(p.funcs, p.use_mod)
+    p.has_struct = any(f.struct for f in p.funcs)
+    p.calls = list(j["calls"])
+    p.files, p.call_lines = render_program(p.funcs, p.use_mod, p.calls, p.backend)
     p.spec = Spec(visible(p.aliases), p.has_struct)
     return p
 
@@ -898,6 +1051,9 @@ class ModelIO:
                     ids.append(self.plain(t))
             ps = " ".join("%s:%s:%d" % (q[0].encode().hex(), ty_model(q[1], self.tyids), 1 if q[2] else 0) for q in a.fn.params)
             self.lines.append("A %d %d %d %d ; %s ; %s" % (a.aid, a.fn.tag, 1 if a.neg else 0, 1 if a.fn.generic else 0, " ".join(map(str, ids)), ps))
+            if a.fn.numeric_body:
+                g = a.fn.ptype(a.fn.numeric_body)[1]
+                self.lines.append("NB %d %s %s %s" % (a.aid, ty_model(g, self.tyids)[1:], ty_model(Z, self.tyids)[1:], ty_model(K, self.tyids)[1:]))
 
     def plain(self, t):
         k = (t["t"], t["l"])
@@ -920,13 +1076,14 @@ class ModelIO:
             val, ref, tx = p.spec.unit_info(sub, j, ue)
             c = sub[j][0]
             unknown_ident = (c == 'IDENT' and ue == j + 1 and val is None) or \
-                            (c == 'LP' and ue == j + 3 and sub[j + 1][0] == 'IDENT' and p.spec.unit_info(sub, j + 1, j + 2)[0] is None)
+                            (c == 'LP' and ue == j + 3 and sub[j + 1][0] == 'IDENT' and val is None and p.spec.unit_info(sub, j + 1, j + 2)[0] is None)
             if unknown_ident:
                 val = ref = VOID      # an undeclared name evaluates to 'nichts' without a diagnostic (EvaluateSilent)
             v = ty_model(val, self.tyids) if val is not None else "-"
             r = ty_model(ref, self.tyids) if (ref is not None and c in ('IDENT', 'LP')) else "-"
             args.append("%d:%s:%s:%d" % (j, v, r, 1 if tx else 0))
-        self.lines.append("C %s 0 %s ; %s ; %s ; " % (cid, ty_model(B, self.tyids), " ".join(map(str, ids)), " ".join(args)))
+        fails = []
+        self.lines.append("C %s 0 %s ; %s ; %s ; %s" % (cid, ty_model(B, self.tyids), " ".join(map(str, ids)), " ".join(args), " ".join(map(str, fails))))
 
 
 def parse_model(out):
@@ -959,7 +1116,7 @@ def replay_of(p, k, extra=None, key=None):
             CTX['shrink'] = True
         if rp:
             return rp
-    d = dict(files=p.files, call=p.calls[k] + ".", line=p.call_lines[k], how="write the files into one directory; echo '{\"id\":\"x\",\"file\":\"<dir>/main.ddp\"}' | DDPPATH=.cache/<hash> .cache/<hash>/go-*/callx")
+    d = dict(files=p.files, call=p.calls[k] + ".", line=p.call_lines[k], program=prog_to_json(p), how="write the files into one directory; echo '{\"id\":\"x\",\"file\":\"<dir>/main.ddp\"}' | DDPPATH=.cache/<hash> .cache/<hash>/go-*/callx")
     if extra:
         d.update(extra)
     return d
@@ -1059,6 +1216,17 @@ def reduced_replay(p, k, i, key):
     return None
 
 
+def typed_if_undeclared_is_void(p, a, sub, i):
+    """the chosen alias only 'type-matches' because an argument is an undeclared name (bound to a type parameter as
+    'nichts'); the program is rejected with a diagnostic, which is all the property can ask of an ill-typed call"""
+    p.spec.void_unknown = True
+    try:
+        mm = p.spec.match(a.pat, sub, i)
+        return bool(mm) and p.spec.typed(a, sub, mm[1])
+    finally:
+        p.spec.void_unknown = False
+
+
 def code_less(b, a):
     """sortAliases as it is written (only parameters whose type IS a type parameter count as generic)"""
     if len(b.pat) != len(a.pat):
@@ -1089,8 +1257,13 @@ def judge_site(ck, p, k, i, gtoks, stoks, impl_call, m, errs_on_line, stats):
         if not errs_on_line:
             ck.violation("resolve no-type-match-accepted", "%s: no alias type-matches (%s match by tokens) but no error was reported" % (site, len(r['matching'])), replay_of(p, k, dict(token=i), key="resolve no-type-match-accepted"))
         if m:
+            if m["kind"] == "SEL":
+                # the implementation may "type-match" an undeclared name against a type parameter (see typed_if_undeclared_is_void)
+                return model_vs_impl(p, i, sub, stoks, gtoks, impl_call, m, by_aid, stats, site)
             if m["kind"] not in ("FB", "GERR"):
                 return "model %s where no candidate type-matches for the oracle (%s)" % (m["kind"], site)
+            if m["kind"] == "GERR" and impl_call is not None:
+                return "model: generic error without a call, implementation built a call to %s (%s)" % (impl_call["fn"], site)
             if m["kind"] == "FB" and impl_call is not None:
                 iid = impl_identity(p, impl_call, gtoks, stoks)
                 tops = [by_aid[x] for x in m["top"] if x in by_aid]
@@ -1098,6 +1271,8 @@ def judge_site(ck, p, k, i, gtoks, stoks, impl_call, m, errs_on_line, stats):
                     return "fallback: implementation called %s, model's first candidates are %s (%s)" % (iid[0], [describe(a) for a in tops], site)
         return None
     stats['typed'] += 1
+    if any(a.fn.numeric_body and a not in r['typed'] and p.spec.signature_typed(a, sub, p.spec.match(a.pat, sub, i)[1]) for a in r['matching']):
+        stats['uninstantiable_skipped'] = stats.get('uninstantiable_skipped', 0) + 1
     best_ids = set()
     for a, mm in r['best']:
         best_ids.add(identity(a, stoks, [(n, x, y) for n, x, y in mm[1]], mm[0]))
@@ -1119,12 +1294,32 @@ def judge_site(ck, p, k, i, gtoks, stoks, impl_call, m, errs_on_line, stats):
             if identity(a, stoks, mm[1], mm[0]) == iid:
                 chosen = a
         if chosen is None:
-            same_fn = [a for a in r['matching'] if fn_key(a.fn) == iid[0]]
-            if same_fn and any(identity(a, stoks, p.spec.match(a.pat, sub, i)[1], p.spec.match(a.pat, sub, i)[0])[:2] == iid[:2] for a in same_fn):
-                ck.violation("resolve binding-not-by-name fn=%s" % iid[0][0], "%s: %s was called but its arguments are bound %s, the placeholders say %s" % (
-                    site, iid[0][0], sorted(iid[2]), [sorted(identity(a, stoks, p.spec.match(a.pat, sub, i)[1], 0)[2]) for a in same_fn]), replay_of(p, k, dict(token=i), key="resolve binding-not-by-name fn=%s" % iid[0][0]))
+            kind = None
+            for a in r['matching']:
+                if fn_key(a.fn) != iid[0]:
+                    continue
+                mm = p.spec.match(a.pat, sub, i)
+                x = identity(a, stoks, mm[1], mm[0])
+                if x[2] == iid[2] and x[3] == iid[3] and x[1] != iid[1]:
+                    kind = ("negation", a)
+                    break
+                if x[1] == iid[1] and x[2] == iid[2] and x[3] != iid[3]:
+                    kind = kind or ("extent", a)
+                elif x[1] == iid[1] and x[3] == iid[3] and {q[1:] for q in x[2]} == {q[1:] for q in iid[2]}:
+                    kind = kind or ("binding", a)
+            if kind and kind[0] == "negation":
+                key = "resolve negation-lost fn=%s" % iid[0][0]
+                ck.violation(key, "%s: the alias %s was used but the call is %snegated" % (site, describe(kind[1]), "" if iid[1] else "not "), replay_of(p, k, dict(token=i), key=key))
+            elif kind and kind[0] == "binding":
+                key = "resolve binding-not-by-name fn=%s" % iid[0][0]
+                ck.violation(key, "%s: %s was called through %s but its arguments are bound %s" % (site, iid[0][0], describe(kind[1]), sorted(iid[2])), replay_of(p, k, dict(token=i), key=key))
+            elif kind and kind[0] == "extent":
+                key = "resolve call-extent fn=%s" % iid[0][0]
+                ck.violation(key, "%s: %s was called through %s but the call ends at token %d" % (site, iid[0][0], describe(kind[1]), iid[3]), replay_of(p, k, dict(token=i), key=key))
             else:
-                ck.violation("resolve unknown-target", "%s: called %s (negated=%s), not an alias that matches here" % (site, iid[0], iid[1]), replay_of(p, k, dict(token=i), key="resolve unknown-target"))
+                ck.violation("resolve unknown-target", "%s: called %s (negated=%s) with arguments %s, not an alias that matches here" % (site, iid[0], iid[1], sorted(iid[2])), replay_of(p, k, dict(token=i), key="resolve unknown-target"))
+        elif chosen not in r['typed'] and errs_on_line and typed_if_undeclared_is_void(p, chosen, sub, i):
+            stats['undeclared_argument_rejected'] = stats.get('undeclared_argument_rejected', 0) + 1
         elif chosen not in r['typed']:
             ck.violation("resolve type-mismatched-choice", "%s: chose %s whose parameter types do not equal the argument types; expected one of %s" % (
                 site, describe(chosen), [describe(a) for a, _ in r['best']]), replay_of(p, k, dict(token=i), key="resolve type-mismatched-choice"))
@@ -1147,6 +1342,14 @@ def judge_site(ck, p, k, i, gtoks, stoks, impl_call, m, errs_on_line, stats):
         if iid in best_ids:
             return "model %s, implementation and oracle select %s (%s)" % (m["kind"], iid[0], site)
         return None
+    return model_vs_impl(p, i, sub, stoks, gtoks, impl_call, m, by_aid, stats, site)
+
+
+def model_vs_impl(p, i, sub, stoks, gtoks, impl_call, m, by_aid, stats, site):
+    """the model selected an alias: exact agreement when its maximal set is a singleton, membership otherwise"""
+    if impl_call is None:
+        return "model selects alias %s, the implementation built no call (%s)" % (m["aid"], site)
+    iid = impl_identity(p, impl_call, gtoks, stoks)
     mset = [by_aid[x] for x in m["maxset"] if x in by_aid]
     mids = set()
     for a in mset:
@@ -1197,14 +1400,18 @@ def check_decls(ck, p, resp, alias_toks, stats):
             ck.violation("decl alias-set fn=%s" % f.name, "p%d: %s declares aliases %s, the property reads %s" % (p.idx, f.name, got, want), dict(files=p.files))
 
 
-def alias_leg(ck, b, tt, callx, model, root, nprog, ncalls, backend):
+def gen_programs(ck, nprog, ncalls, backend):
     rng = ck.rng
     progs = []
     for i in range(nprog):
         clean = backend or rng.random() < 0.6
-        p = make_program(rng, (1000 if backend else 0) + i, clean, backend, ncalls)
+        progs.append(make_program(rng, (100000 if backend else 0) + i, clean, backend, ncalls))
+    return progs
+
+
+def alias_leg(ck, b, tt, callx, model, root, progs):
+    for p in progs:
         write_program(p, root)
-        progs.append(p)
     reqs = []
     for p in progs:
         reqs.append(dict(id="p%d" % p.idx, file=os.path.join(p.dir, "main.ddp"), decls=True))
@@ -1251,8 +1458,8 @@ def alias_leg(ck, b, tt, callx, model, root, nprog, ncalls, backend):
         for k, text in enumerate(p.calls):
             gt = [t for t in scans[k] if t["t"] != 1]
             st = spec_tokens(text + ".")
-            if len(gt) != len(st) or any(g["l"] != s[1] for g, s in zip(gt, st)):
-                stats['harness_errors'] += 1
+            if len(gt) != len(st) or any(g["l"] != s[1] or (s[0] == 'IDENT') != (g["t"] == tt["IDENTIFIER"]) for g, s in zip(gt, st)):
+                stats['harness_errors'] += 1      # the oracle's tokeniser and the real scanner disagree: generator bug, not a finding
                 continue
             line = p.call_lines[k]
             sites = {0}
@@ -1297,7 +1504,7 @@ def alias_leg(ck, b, tt, callx, model, root, nprog, ncalls, backend):
         first = mismatches[0]
         if isinstance(first, tuple):
             ck.broken_obligation("correspondence Select.v vs parser.alias fails at %d call sites; first: %s" % (len(mismatches), first[0]),
-                                 json.dumps(replay_of(first[1], first[2]), ensure_ascii=False)[:6000])
+                                 json.dumps(dict(call=first[1].calls[first[2]] + ".", program=prog_to_json(first[1])), ensure_ascii=False)[-1900:])
         else:
             ck.broken_obligation("correspondence: " + str(first), "")
     return progs, stats
@@ -1609,14 +1816,240 @@ def overload_leg(ck, b, callx, model, root, nprog):
     return stats
 
 
+# =================================================================================================
+# backend: which body runs, with which arguments
+# =================================================================================================
+def expected_lines(p, toks, i, end):
+    """what the program must print for the call at token i: (set of acceptable outermost lines, nested lines, value)"""
+    sub = toks[:end]
+    r = p.spec.resolve(sub, i)
+    if not r or r['kind'] != 'call':
+        return None
+    alts = []
+    for a, mm in r['best']:
+        nested = []
+        vals = {}
+        ok = True
+        for name, x, y in mm[1]:
+            prm = a.fn.ptype(name)
+            text = " ".join(t[1] for t in sub[x:y]).replace("( ", "(").replace(" )", ")").replace("- ", "-")
+            if text in FORMS:
+                v = FORMS[text][3]
+            elif y - x == 1 and sub[x][0] in ('INT', 'FLOAT', 'BOOL'):
+                v = sub[x][1]
+            elif y - x == 1 and sub[x][0] in ('STRING', 'CHAR'):
+                v = sub[x][1][1:-1]
+            elif sub[x][0] == 'LP':
+                inner = expected_lines(p, sub[:y - 1], x + 1, y - 1)
+                if inner is None or len(inner[0]) != 1:
+                    ok = False
+                    break
+                (ln, nst, val), = inner[0]
+                nested += list(nst) + ([ln] if ln is not None else [])
+                v = val
+            else:
+                v = None
+            vals[name] = v if (prm[1] in PRINTERS and v is not None) else "?"
+            if prm[1] in PRINTERS and v is None:
+                ok = False
+        if not ok:
+            return None
+        if a.fn.struct:
+            alts.append((None, tuple(nested), None))
+        elif a.fn.module == 'aus':
+            alts.append((None, tuple(nested), None))
+        else:
+            line = "%s(%s)" % (a.fn.name, ";".join("%s=%s" % (n, vals[n]) for n in sorted(vals)))
+            val = ("falsch" if a.neg else "wahr") if a.fn.ret == 'Wahrheitswert' else str(a.fn.tag)
+            alts.append((line, tuple(nested), val))
+    return set(alts), r
+
+
+def backend_leg(ck, b, tt, callx, model, root, nprog, budget_s):
+    progs, stats = alias_leg(ck, b, tt, callx, model, root, gen_programs(ck, nprog, 14, True))
+    bstats = dict(programs=0, compiled=0, statements=0, lines_checked=0, skipped_programs=0, negated_values=0, not_run_for_time=0)
+    t_start = vlib.time.time()
+
+    def build_run(p):
+        exe = os.path.join(p.dir, "prog")
+        c = b.compile(os.path.join(p.dir, "main.ddp"), exe, opt=p.idx % 3, cwd=p.dir)
+        if c["stage"] != "ok":
+            return p, c, None
+        rc, out, err = b.run(exe, cwd=p.dir)
+        return p, c, (rc, out.decode("utf-8", "replace"), err.decode("utf-8", "replace"))
+
+    results = []
+    for j in range(0, len(progs), vlib.NCPU):
+        if j and vlib.time.time() - t_start > budget_s:
+            bstats['not_run_for_time'] = len(progs) - j
+            break
+        results += vlib.pmap(build_run, progs[j:j + vlib.NCPU])
+    for p, c, run in results:
+        bstats['programs'] += 1
+        exp = []
+        clean = True
+        for k, text in enumerate(p.calls):
+            st = spec_tokens(text + ".")
+            if text.startswith("XAUSW ("):
+                e = expected_lines(p, st, 2, len(st) - 1)
+                if e is None or e[1]['end'] != len(st) - 2:
+                    clean = False
+                    break
+            else:
+                e = expected_lines(p, st, 0, len(st))
+                if e is None or e[1]['end'] != len(st) - 1:
+                    clean = False
+                    break
+            exp.append(e[0])
+        if not clean:
+            bstats['skipped_programs'] += 1
+            continue
+        if c["stage"] != "ok":
+            # the frontend leg has already judged this program; a program it accepts must compile
+            if not any(d for d in ()):
+                ck.violation("backend compile-failed stage=%s" % c["stage"], "p%d: a program whose calls all resolve does not compile: %s" % (p.idx, c["out"][-300:]), dict(files=p.files, opt=p.idx % 3))
+            continue
+        bstats['compiled'] += 1
+        rc, out, err = run
+        segs = out.split("#\n")
+        if rc != 0 or len(segs) != len(p.calls) + 1:
+            ck.violation("backend run-failed", "p%d: exit %s, %d of %d statements printed their marker; stderr %s" % (p.idx, rc, len(segs) - 1, len(p.calls), err[-200:]), dict(files=p.files, opt=p.idx % 3, stdout=out[-2000:]))
+            continue
+        for k, alts in enumerate(exp):
+            bstats['statements'] += 1
+            seg = segs[k]
+            ok = False
+            for line, nested, val in alts:
+                want_lines = sorted(nested) + ([line] if line else [])
+                got = seg.split("\n")
+                tail_v = got[-1]
+                body = got[:-1]
+                if sorted(body[:-1] if line else body) == sorted(nested) and (not line or (body and body[-1] == line)):
+                    if p.calls[k].startswith("XAUSW ("):
+                        if tail_v == val:
+                            ok = True
+                            bstats['negated_values'] += val == "falsch"
+                    elif tail_v == "":
+                        ok = True
+            bstats['lines_checked'] += len(seg.split("\n")) - 1
+            if not ok:
+                first = sorted(alts, key=str)[0]
+                ck.violation("backend wrong-body-or-arguments", "p%d -O%d: '%s.' printed %r, the property expects %r" % (p.idx, p.idx % 3, p.calls[k], seg, [a for a in alts][:2]),
+                             dict(files=p.files, opt=p.idx % 3, statement=p.calls[k] + ".", printed=seg, expected=[list(map(str, a)) for a in alts]))
+    return stats, bstats
+
+
+def marker_leg(ck, model, progs):
+    """declarations.go 431-459 against Select.expand_marker and the property's reading, on the raw alias literals"""
+    raws = []
+    for p in progs:
+        for f in p.funcs:
+            if not f.struct:
+                raws += ['"%s"' % r for r in f.raw_kept]
+    raws += ['"x <!nicht> y"', '"<!kein> <a> da"', '"<a> <!un>gleich <b>"', '"ohne marker <a>"', '"<a> mag <!nicht <b>"', '"a <!x> b <!y> c"', '"<!>leer"']
+    raws = sorted(set(raws))
+    mp = subprocess.run([model], input="\n".join("M " + r.encode().hex() for r in raws) + "\n", capture_output=True, text=True, timeout=300)
+    outs = [l for l in mp.stdout.splitlines() if l.startswith("M")]
+    bad = 0
+    for r, o in zip(raws, outs):
+        inner = r[1:-1]
+        m = re.search(r'<!([^>]*)>', inner)
+        if "<!" in inner and not m:
+            want = None                                   # unterminated marker: nothing is declared
+        else:
+            want = [('"%s"' % t, n) for t, n in expand_marker_spec(inner)]
+        got = None if o == "M !" else [(bytes.fromhex(x.split(":")[0]).decode(), x.split(":")[1] == "1") for x in o.split()[1:]]
+        if got != want:
+            bad += 1
+            ck.broken_obligation("expand_marker(%s) = %s in the model, the property reads %s" % (r, got, want), "")
+    return dict(literals=len(raws), with_marker=sum(1 for r in raws if "<!" in r), disagreements=bad)
+
+
+def load_corpus():
+    d = os.path.join(vlib.VERIF, "corpus", PID)
+    out = []
+    if os.path.isdir(d):
+        for n, f in enumerate(sorted(os.listdir(d))):
+            if f.endswith(".json"):
+                try:
+                    j = json.load(open(os.path.join(d, f)))
+                    out.append(prog_from_json(j["program"], 900000 + n))
+                except Exception as e:
+                    log("[corpus] %s unreadable: %r" % (f, e))
+    return out
+
+
+def persist_corpus(ck):
+    import hashlib
+    if os.environ.get("C09_NO_PERSIST") == "1":
+        return
+    d = os.path.join(vlib.VERIF, "corpus", PID)
+    for key, what, replay, no_input in ck.violations:
+        if isinstance(replay, dict) and "program" in replay and len(replay["program"].get("calls", [])) <= 3:
+            os.makedirs(d, exist_ok=True)
+            blob = json.dumps(replay["program"], sort_keys=True, ensure_ascii=False)
+            path = os.path.join(d, hashlib.sha1(blob.encode()).hexdigest()[:12] + ".json")
+            if not os.path.exists(path):
+                with open(path, "w") as fh:
+                    json.dump(dict(key=key, what=what, program=replay["program"]), fh, indent=1, ensure_ascii=False)
+
+
+def replay_mode(ck, b, tt, callx, model, root, path):
+    j = json.load(open(path))
+    rp = j.get("replay", j)
+    if "program" in rp:
+        p = prog_from_json(rp["program"], 1)
+        progs, stats = alias_leg(ck, b, tt, callx, model, root, [p])
+        ck.cov["replay"] = dict(path=path, stats=stats)
+        log("[replay] %s: %d call sites judged, %d violation(s)" % (path, stats['sites'], len(ck.violations) + len(ck.known_hit)))
+    elif "files" in rp:
+        d = os.path.join(root, "replay")
+        os.makedirs(d, exist_ok=True)
+        for k, v in rp["files"].items():
+            open(os.path.join(d, k), "w").write(v)
+        resp, _ = callx_batch(callx, [dict(id="r", file=os.path.join(d, "main.ddp"))], b.dir)
+        r = resp.get("r", {})
+        line = rp.get("line")
+        print(json.dumps(dict(calls=[c for c in r.get("calls") or [] if line is None or c["line"] == line],
+                              ops=[o for o in r.get("ops") or [] if line is None or o["line"] == line],
+                              diags=[x for x in r.get("diags") or [] if line is None or x["line"] == line]), ensure_ascii=False, indent=1))
+        ck.cov["replay"] = dict(path=path, note="no structured program in this replay: the implementation's answer is printed, compare with 'what'")
+    # a replay does not rewrite the evidence of the property
+    for kkey, (kf, what) in ck.known_hit.items():
+        print("KNOWN-FINDING: property=%s %s" % (PID, kf.get("what", what)))
+    for what, lg in getattr(ck, "_broken", []):
+        print("VIOLATION property=%s replay=%s no-failing-input-found" % (PID, path))
+        log("  -> " + what)
+    for key, what, rp, no_input in ck.violations:
+        print("VIOLATION property=%s replay=%s" % (PID, path))
+        log("  -> %s: %s" % (key, what))
+    sys.stdout.flush()
+    sys.exit(1 if (ck.violations or getattr(ck, "_broken", [])) else 0)
+
+
 def main():
     ck = Check(PID, "proof")
     b = Build()
-    ck.cov["trusted_base"] = vlib.TRUSTED_COMMON + []
+    ck.cov["trusted_base"] = vlib.TRUSTED_COMMON + [
+        "hook-free: the harness callx uses only exported API (parser.Parse, ast.VisitModule, scanner.Scan/ScanAlias, module.Operators)",
+        "argument typing (argParser + EvaluateSilent), 'index into a Text' and generic instantiation success are parameters of the model; the check supplies them from the generator's own knowledge of the generated argument forms (all instantiations succeed)",
+        "the cursor memo start_indices of parser.alias is modelled as a cursor carried along the trie path; the argument cache (cached_args) as a function of (position, parsed-as-assignable): validated by the correspondence, not proved",
+        "sort.Slice and slices.BinarySearchFunc are taken at their documented contracts (a permutation sorted w.r.t. a strict weak order; the insertion index in a sorted slice); sortedness and the strict-weak-order property are proved",
+        "placeholder key abstraction (IsReference, IsList, rank of the printed underlying type, identity) as in C20; ranks come from the real String() values of every run",
+        "types are modelled as base | list | type parameter; generic Kombinationen, Variable and Byte parameters are outside the generated populations",
+        "Python oracle (class Spec, spec_overload) = the property statement; kddp + gcc + runtime for the backend leg",
+    ]
     tt = regen_tokens(b, ck)
+    regen_alias_args(ck, tt)
     if os.environ.get("C09_NOCOQ") != "1":
         ck.coq()
-    ok, lg = b.ensure_native()
+        # the extracted driver follows the (possibly regenerated) model
+        mk = subprocess.run(["flock", os.path.join(vlib.COQ, ".make.lock"), "make", "--no-print-directory", "-C", os.path.join(vlib.VERIF, "extract"), "_build/c09"],
+                            capture_output=True, text=True, timeout=600)
+        if mk.returncode != 0:
+            ck.broken_obligation("extracted model driver does not build: " + (mk.stdout + mk.stderr)[-400:], mk.stdout + mk.stderr)
+    skip_backend = os.environ.get("C09_SKIP_BACKEND") == "1"     # for mutation runs of frontend mechanisms only
+    ok, lg = (True, "") if skip_backend else b.ensure_native()
     callx, lg2 = b.ensure_go("callx")
     model = vlib.model_bin("c09")
     if not ok or not callx:
@@ -1627,11 +2060,41 @@ def main():
         ck.finish()
     root = vlib.scratch()
     CTX.update(callx=callx, ddppath=b.dir, root=root, shrink=True)
+    if ck.replay:
+        replay_mode(ck, b, tt, callx, model, root, ck.replay)
+    t0 = vlib.time.time()
+    corpus = load_corpus()
+    if corpus:
+        _, cstats = alias_leg(ck, b, tt, callx, model, root, corpus)
+        ck.cov["corpus"] = dict(entries=len(corpus), sites=cstats['sites'])
     nprog, ncalls = (110, 20) if ck.quick else (1500, 20)
-    progs, stats = alias_leg(ck, b, tt, callx, model, root, nprog, ncalls, backend=False)
+    progs, stats = alias_leg(ck, b, tt, callx, model, root, gen_programs(ck, nprog, ncalls, False))
+    log("[c09] alias leg %.1fs" % (vlib.time.time() - t0))
     ck.cov["alias_leg"] = stats
+    ck.cov["marker_leg"] = marker_leg(ck, model, progs)
     ck.cov["overload_leg"] = overload_leg(ck, b, callx, model, root, 40 if ck.quick else 600)
-    ck.finish()
+    log("[c09] overload leg done %.1fs" % (vlib.time.time() - t0))
+    if skip_backend:
+        fstats = dict.fromkeys(stats, 0)
+        bstats = dict(statements=0, skipped="C09_SKIP_BACKEND=1")
+    else:
+        fstats, bstats = backend_leg(ck, b, tt, callx, model, root, 6 if ck.quick else 320, 20 if ck.quick else 240)
+    log("[c09] backend leg done %.1fs" % (vlib.time.time() - t0))
+    ck.cov["backend_leg"] = dict(frontend=fstats, run=bstats)
+    persist_corpus(ck)
+    ck.cov["exhaustive"] = False
+    ck.cov["rule"] = ("call sites = every position at which the oracle or the real parser starts a call in a generated statement (nested calls in parenthesised "
+                      "arguments included); non-trivial = at least two declared aliases match the tokens there; distinct by (set of matching alias keys, token sequence). "
+                      "Overload sites: non-trivial = the operator has at least two overloads; distinct by (table, operand types/assignability, target).")
+    ck.cov["distribution"] = dict(
+        call_sites=stats['sites'] + fstats['sites'], with_two_or_more_matching=stats['multi'] + fstats['multi'], with_two_or_more_type_matching=stats['multi_typed'] + fstats['multi_typed'],
+        no_type_match=stats['untyped'], ties_in_model=stats['tie'] + fstats['tie'], selected_negated=stats['negated_selected'], selected_constructor=stats['struct_selected'],
+        selected_generic=stats['generic_selected'], selected_imported=stats['imported_selected'], selected_with_referenz=stats['ref_selected'],
+        overload_sites=ck.cov["overload_leg"].get('sites'), overloaded=ck.cov["overload_leg"].get('overloaded'), builtin=ck.cov["overload_leg"].get('builtin'),
+        statements_executed=bstats['statements'])
+    ck.finish("Props/C09.v: %d theorems (" % len(ck.cov.get("theorems", [])) + "select_maximal for every sorted permutation: partial as the code orders, full in the property's wording for populations whose generic "
+              "declarations have a directly generic parameter, refuted otherwise with a witness that is replayed on the real parser by the corpus); the extracted model, the real "
+              "parser and a Python oracle of the property judge the same generated call sites, overload tables/sites and negation markers; a sample of the programs is compiled and run.")
 
 
 if __name__ == "__main__":
